@@ -542,6 +542,7 @@ func genC01(g *G) {
 	genC01Long(g)
 	genC01Seq(g)
 	genC01HSeq(g)
+	genC01Range(g)
 	var prev []string
 	emit := func(srcKind, dstKind string, a1, a2 string) {
 		s, d, n, r := g.ids()
